@@ -72,14 +72,16 @@ def make_h(tier):
         ig = ctx.pick("ignore_pattern", ("none", "dir1/", "build/", "*.ts", "dir1/file", "dir1/**", "**/file", "**/dir1/", "**/dir2/", "wild-dir1/", "dir1/dir2/"))
         if ig not in ("none", "build/", "dir1/") and d1 not in ("pkg", "build", "buildx", "xbuild", "BUILD", "node_modules", ".hidden", "keep.py"):
             ctx.assume(False)
-        kinds = (".thailintignore", "config-ignore", ".thailintignore-with-byte-order-mark")
+        kinds = (".thailintignore", "config-ignore")
+        if quick or ig in ("dir1/", "*.ts", "**/file", "dir1/**"):
+            kinds += (".thailintignore-with-byte-order-mark",)
         if not quick or ig in ("dir1/", "*.ts", "**/file"):
             kinds += (".thailintignore-next-to-a-config-list", "config-ignore-next-to-an-ignore-file")
         src_kind = ctx.pick("ignore_source", kinds) if ig != "none" else "none"
         explicit = ctx.flag("also_named_explicitly")
         # the command line has its own target handling (files vs directories, --no-recursive): always exercised where explicit
         # files meet a non-recursive directory target, everywhere in the thorough tier
-        api_too = not quick or (fname in ("a.py", "b.ts") and d1 in ("pkg", "build", ".hidden"))
+        api_too = (fname in ("a.py", "b.ts") and d1 in ("pkg", "build", ".hidden")) if quick else fname in ("a.py", "b.ts", "builder.py", "build")
         entries = ("library", "cli") if (ig == "none" and (not quick or (explicit and not recursive))) else ("library",)
         entries += ("linter-api",) if api_too else ()
         entry = ctx.pick("entry", entries) if len(entries) > 1 else "library"
@@ -177,5 +179,5 @@ def obligations(tier):
            bounds="forked (real directory trees on disk, nothing symbolic): first-level directory name from the vocabulary derived from _HARDCODED_EXCLUDE_DIRS "
                   "(each name, name+x, x+name, upper case, *.egg-info, hidden, neutral), second-level name, file name (incl. stems containing every excluded extension), "
                   "recursive flag, 7 ignore-pattern forms x 2 sources, explicit naming, library/CLI entry",
-           timeout=900 if tier == "quick" else 3000, workers=14, must_cover=("some-linted", "none-linted")),
+           timeout=900 if tier == "quick" else 3000, workers=14, must_cover=("some-linted", "none-linted"), max_paths=400000 if tier == "quick" else 1500000),
     ]
